@@ -18,11 +18,12 @@ pub const INFO: PropInfo = PropInfo {
            non-trivial = at least two responses were received on one persistent connection; distinct = distinct hash of the full request sequences",
     state_measure: "(position class of Connection: close, presence of malformed request, number of connections) combinations",
     assumptions: &[
+        "0..2 misbehaving connections (connection errors of four kinds inside a request line / header / body, before the response is read, a client that never reads) run alongside; nothing is asserted about them except that no task panics other than the documented `Failed to send response` on a dead peer, and that the observed connections are unaffected",
         "each request is delivered as one segment and sent only after the previous response was read (the property's own framing; pipelining and splits are C06)",
         "a malformed request in the middle is smaller than the 1 KiB read buffer, so that one read consumes it",
         "request heads stay below 1 KiB",
     ],
-    expected_probes: &["c05.close_honoured", "c05.request_after_close_unanswered", "c05.malformed_in_middle", "c05.ctx_set_then_later_request", "c05.param_then_no_param", "c05.body_over_buffer"],
+    expected_probes: &["c05.close_honoured", "c05.request_after_close_unanswered", "c05.malformed_in_middle", "c05.ctx_set_then_later_request", "c05.param_then_no_param", "c05.body_over_buffer", "c05.chaos_connection_alongside"],
 };
 
 #[derive(Clone, Debug, Serialize, Deserialize)]
@@ -32,9 +33,22 @@ pub struct ConnPlan {
     /// after a `Connection: close` request, still send the next one (it must not be answered)
     pub send_after_close: bool,
 }
+/// a misbehaving connection running next to the observed ones (fault isolation between sessions)
+#[derive(Clone, Debug, Serialize, Deserialize)]
+pub struct ChaosPlan {
+    pub start_ms: u64,
+    /// 0: part of a request, then a connection error; 1: a request, error before the response is read;
+    /// 2: announces a body, sends half of it, error; 3: connect and close at once; 4: a request, then the client stops reading and goes away
+    pub kind: u8,
+    /// error kind index (see c02::err_kind)
+    pub err: u8,
+    pub delay_ms: u64,
+}
 #[derive(Clone, Debug, Serialize, Deserialize)]
 pub struct Scenario {
     pub conns: Vec<ConnPlan>,
+    #[serde(default)]
+    pub chaos: Vec<ChaosPlan>,
 }
 
 #[derive(Default)]
@@ -56,7 +70,8 @@ pub fn generate(_cfg: &RunCfg, _out: &mut Outcome) -> Scenario {
         let think_ms = reqs.iter().map(|_| t::pick(&[0u64, 0, 1, 30, 2000])).collect();
         conns.push(ConnPlan { reqs, think_ms, send_after_close: t::chance(1, 2) });
     }
-    Scenario { conns }
+    let chaos = (0..t::weighted(&[3, 2, 1])).map(|_| ChaosPlan { start_ms: t::pick(&[0u64, 0, 1, 30, 2000]), kind: t::draw(5) as u8, err: t::draw(4) as u8, delay_ms: t::pick(&[0u64, 1, 50]) }).collect();
+    Scenario { conns, chaos }
 }
 
 pub fn run(cfg: &RunCfg, direct: Option<&serde_json::Value>) -> Outcome {
@@ -157,7 +172,48 @@ fn execute(sc: &Scenario, out: &mut Outcome) {
             }
         });
     }
+    for (xi, ch) in sc.chaos.iter().enumerate() {
+        let ch = ch.clone();
+        simcore::spawn_task(format!("chaos{xi}"), "client", async move {
+            if ch.start_ms > 0 {
+                sleep(ch.start_ms * MS).await;
+            }
+            let Ok(mut c) = Client::connect(rt::ADDR, ConnCfg { window: 64, ..ConnCfg::default() }).await else { return };
+            let kind = super::c02::err_kind(ch.err);
+            simcore::with(|w| w.count("fault.chaos_connection"));
+            match ch.kind {
+                0 => {
+                    c.send(b"POST /p/chaos HTTP/1.1\r\nHost: x\r\nContent-Le", 0);
+                    c.send_rst(kind, ch.delay_ms * MS);
+                }
+                1 => {
+                    c.send(b"GET /p/chaos/q/1 HTTP/1.1\r\nHost: x\r\nx-set-ctx: chaos\r\nx-delay-ms: 20\r\n\r\n", 0);
+                    c.send_rst(kind, ch.delay_ms * MS);
+                }
+                2 => {
+                    c.send(b"POST /p/chaos HTTP/1.1\r\nHost: x\r\nContent-Length: 2000\r\n\r\nCHAOSCHAOSCHAOS", 0);
+                    c.send_rst(kind, ch.delay_ms * MS);
+                }
+                3 => {}
+                _ => {
+                    // a large dump is requested through a tiny window and never read
+                    let mut req = b"GET /p/chaos HTTP/1.1\r\nHost: x\r\n".to_vec();
+                    for i in 0..12 {
+                        req.extend_from_slice(format!("x-marker: chaos-{i}-{}\r\n", "z".repeat(40)).as_bytes());
+                    }
+                    req.extend_from_slice(b"\r\n");
+                    c.send(&req, 0);
+                    sleep((1 + ch.delay_ms) * MS).await;
+                }
+            }
+            sleep(ch.delay_ms * MS).await;
+            drop(c);
+        });
+    }
     let end = simcore::run();
+    if !sc.chaos.is_empty() {
+        out.probe("c05.chaos_connection_alongside");
+    }
 
     // ---- oracle
     let panics = rt::panicked_tasks();
